@@ -206,7 +206,8 @@ func (w *worldCheck) reach(res *jsonschema.Resolved, si int, limit int, ctxt str
 			r := Op(func() { err = res.Validate(inst) })
 			c.CheckOp("Validate(probe)", r)
 			if r.Panicked {
-				continue
+				c.Fail("C03/reach", "validate-"+r.String(), "schedule %d %s: Validate of probe %s did not return normally: %s", si, ctxt, p, r.Value)
+				return
 			}
 			want := k == 0
 			if (err == nil) != want {
@@ -232,6 +233,11 @@ func (w *worldCheck) check(si int, plans []*FaultPlan, nilLoader bool) {
 		c.Out("healthy resolve: %v err=%v loads=%v", r, err != nil, log.URIs)
 	}
 	if r.Panicked {
+		if u.Dangle != nil {
+			c.Fail("C03/dangling", "panic:"+r.Where, "schedule %d: Resolve %s on a reference that designates nothing (%q): %s", si, r, u.Dangle.Text, r.Value)
+		} else {
+			c.Fail("C03/reach", "resolve-"+r.String(), "schedule %d: Resolve of a well-formed universe did not return normally: %s", si, r.Value)
+		}
 		return
 	}
 	if u.Dangle != nil {
@@ -257,6 +263,7 @@ func (w *worldCheck) check(si int, plans []*FaultPlan, nilLoader bool) {
 		}
 		res2, err2, log2, r2 := w.resolve(root, plan, false)
 		if r2.Panicked {
+			c.Fail("C03/loader-fault", "resolve-"+r2.String(), "schedule %d: Resolve under a loader fault plan did not return normally: %s", si, r2.Value)
 			continue
 		}
 		var wantErr bool
@@ -295,6 +302,7 @@ func (w *worldCheck) check(si int, plans []*FaultPlan, nilLoader bool) {
 		// recovery: once faults stop, one call suffices
 		res3, err3, _, r3 := w.resolve(root, nil, false)
 		if r3.Panicked {
+			c.Fail("C03/recovery", "resolve-"+r3.String(), "schedule %d: Resolve with a healthy loader after a failed one did not return normally: %s", si, r3.Value)
 			continue
 		}
 		if err3 != nil {
@@ -333,4 +341,12 @@ func (w *worldCheck) loaderHistory(log *LoaderLog, si int, ctxt string) {
 	if len(log.URIs) > len(sortedDocSet(w.closure))-1 {
 		c.Probe("document-requested-under-two-uris")
 	}
+}
+
+func init() {
+	Assumptions["C03"] = append([]string{
+		"the expected target of every reference is known by construction (the reference text is derived from the target and validated with net/url); the 60-line closure model assumes eager resolution, which is what the property states",
+		"cross-document references address a document's root resource (by retrieval URI or absolute canonical $id) plus a fragment; JSON-Pointer fragments do not cross embedded-resource boundaries; roots without an absolute base use fragment-only references (everything else is undefined by the specification)",
+		"error text is never compared",
+	}, CommonAssumptions...)
 }
